@@ -19,13 +19,13 @@ ID = "C20"
 RULE = ("evaluations = (function, held-lock-set) contexts walked by the translator over the SSA of lal + naza; "
         "distinct_nontrivial = distinct lock-order edges found; every edge carries one witness call chain")
 ASSUMPTIONS = [
-    "PARTIAL: decided by proof = lock-order deadlock freedom over the translator's graph (mutexes, RWMutex as exclusive, sync.Once.Do as a lock held around its function) and the guarded-field facts for EVERY struct of lal / naza that has a mutex field (guarded field = configured, or inferred: accessed at least once under the struct's mutex and written after construction); NOT decided = data races in general, channel operations (exitChan sends), WaitGroup/Cond, blocking I/O under a lock",
+    "PARTIAL: decided by proof = lock-order deadlock freedom over the translator's graph (mutexes, RWMutex as exclusive, sync.Once.Do as a lock held around its function) and the guarded-field facts for EVERY struct of lal / naza that has a mutex field (guarded field = configured, or inferred: accessed at least once under the struct's mutex and written after construction) and for owner-guarded objects (structs without a mutex whose instances are only kept in fields - map, slice, pointer - of structs that have one: same inference with the owner's mutex); NOT decided = data races in general, channel operations (exitChan sends), WaitGroup/Cond, blocking I/O under a lock",
     "trusted: the translator harness/cmd/lockgraph (go/packages + go/ssa + VTA call graph refined from CHA, golang.org/x/tools v0.29.0) and its reviewed configuration harness/cmd/lockgraph/c20_config.json (whitelist with a justification per entry; entries used in a run are echoed in coverage.reviewed_assumptions_used)",
     "lock classes: two instances of one type.field are one node (two Groups = one class), so the theorem also excludes 'group A then group B'",
     "code outside the lal and naza modules (standard library) is not walked: function literals passed to it are assumed to be called synchronously with the caller's locks held; methods of lal/naza types matching a standard-library interface method are followed when such an object is passed; objects stored inside standard-library wrappers (bufio around a connection) and calls made by reflection (fmt verbs calling String/Error) are not followed",
     "locks of the standard library are not tracked (assumed leaf locks)",
     "the analysed build is the production one (no verif tag, pkg/innertest excluded)",
-    "channel discipline: channels are classes (pkg.Type.field, func$variable), a class closed anywhere obliges all its send sites; recognised protocols: common mutex + flag the closer writes and the sender reads (syntactic: same functions), all sends and closes in one function with no send reachable after a close, WaitGroup Done in the sender / Wait before the close; channels handed around as parameters are classes of their own; double close and receive-side behaviour are not checked",
+    "channel discipline: channels are classes (pkg.Type.field, func$variable), a class closed anywhere obliges all its send sites; recognised protocols: common mutex + flag the closer writes and the sender reads (syntactic: same functions), all sends and closes in one function with no send reachable after a close, WaitGroup Done in the sender / Wait before the close; channels handed around as parameters are classes of their own; every close site must run at most once per channel: inside a sync.Once.Do of the channel's object, behind a field of that object tested and set under its mutex (syntactic: a dominating branch on the field and a store to it in the same function), the maker closing its own channel once, or reviewed (close_once) - 'per instance' is by class, the once / mutex / flag must be fields of the struct that holds the channel; receive-side behaviour is not checked",
     "publication order: publication = a call into the consumer package (logic) that retains the object, a go statement, a channel send, a map store under a lock; 'shared' = reached by another goroutine through the published object (per type, not per instance); only plain stores count as writes (address-taking calls are followed into lal/naza code, not into the standard library); guessed standard-library callbacks are ignored for this fact; the Coq-checked traces unroll loops twice and are capped at 512 per function (coverage.publication_order.truncated_functions), order across activations beyond that is decided by the translator's walk (pub_walk_violations)",
 ]
 FULL_OUTPUT = True
@@ -295,7 +295,7 @@ def run(ctx, cases, cov, violations, known_hits, notes):
     # 5. guarded-field discipline
     for u in g["unguarded"][:8]:
         cov["oracle_failed"] = cov.get("oracle_failed", 0) + 1
-        violation("oracle", "%s of %s without %s in %s (%s)" % (u["kind"], u["field"], "its mutex", u["func"], u["pos"]),
+        violation("oracle", "%s of %s without %s in %s (%s)" % (u["kind"], u["field"], u.get("missing_lock") or "its mutex", u["func"], u["pos"]),
                   dict(oracle=False, broken=None, why="guarded field accessed while the guarding mutex is not held",
                        access=dict(field=u["field"], kind=u["kind"], func=u["func"], pos=u["pos"], holding=u["holding"]),
                        failing_schedule=[dict(goroutine=1, runs=u["chain"], then="%s %s at %s with no lock" % (u["kind"], u["field"], u["pos"])),
@@ -338,8 +338,19 @@ def run(ctx, cases, cov, violations, known_hits, notes):
                                      never_closed=dict((c["class"], len(c["sends"])) for c in chans if not c["closes"]),
                                      justified_send_sites=[dict(channel=c["class"], send=s["pos"], protocol=s["protocol"], why=s["why"])
                                                            for c in chans if c["closes"] for s in c["sends"] if s.get("protocol")],
+                                     justified_close_sites=[dict(channel=c["class"], close=s["pos"], justification=s.get("protocol"), why=s["why"])
+                                                            for c in chans for s in c["closes"] if s.get("protocol")],
                                      violations=len(ch.get("violations", [])))
-    for v in ch.get("violations", [])[:5]:
+    for v in [x for x in ch.get("violations", []) if x.get("kind") == "double-close"][:5]:
+        cov["oracle_failed"] = cov.get("oracle_failed", 0) + 1
+        chains = v.get("caller_chains") or []
+        violation("oracle", "close of %s at %s (%s) may run twice: %s" % (v["class"], v["close"]["pos"], v["close"]["func"], v["why"]),
+                  dict(oracle=False, broken=None, why="channel discipline: double close is possible",
+                       pair=dict(channel=v["class"], close_site=v["close"]),
+                       failing_schedule=[dict(goroutine=i + 1, runs=c, then="close at %s%s" % (v["close"]["pos"], "" if i == 0 else ": panic: close of closed channel"))
+                                         for i, c in enumerate(chains[:2])]))
+        reported = True
+    for v in [x for x in ch.get("violations", []) if x.get("kind") != "double-close"][:5]:
         cov["oracle_failed"] = cov.get("oracle_failed", 0) + 1
         violation("oracle", "send on %s at %s (%s) can follow its close at %s (%s): %s" % (
             v["class"], v["send"]["pos"], v["send"]["func"], v["close"]["pos"], v["close"]["func"], v["why"]),
@@ -349,6 +360,11 @@ def run(ctx, cases, cov, violations, known_hits, notes):
                                    dict(goroutine=2, runs=v["close"]["func"], then="close at %s" % v["close"]["pos"]),
                                    dict(goroutine=1, then="sends: panic: send on closed channel")]))
         reported = True
+
+    for x in g.get("exempted", []):
+        m = re.match(r"known finding: known finding (\S+?):", x.get("exempt", ""))
+        if m:
+            known_hits.setdefault(m.group(1), "%s of %s without its mutex in %s" % (x["kind"], x["field"], x["func"]))
 
     # 6. lock leaks and sites the translator could not attribute
     for leak in g["lock_leaks"][:5]:
